@@ -1,0 +1,45 @@
+//go:build verif
+
+// Contracts for govc (see /verif/DESIGN.md). Comment-only: no executable code with or without the tag.
+
+package msgformat
+
+//@ func AddRequestFormat(p []byte) ([]byte, error)
+//@   ensures @C15: result1 == nil ==> len(result0) == 1 + len(p) && result0[0] == len(p)
+//@   ensures @C15: result1 == nil ==> forall i int :: 0 <= i && i < len(p) ==> result0[1+i] == p[i]
+//@   ensures @C15: len(p) > 255 ==> result1 != nil
+//@   ensures @C15: len(p) <= 255 ==> result1 == nil
+//@   assigns nothing
+
+//@ func RemoveRequestFormat(p []byte) ([]byte, error)
+//@   ensures @C15: result1 == nil ==> len(p) >= 1 && 1 + p[0] <= len(p) && len(result0) == p[0]
+//@   ensures @C15: result1 == nil ==> forall i int :: 0 <= i && i < len(result0) ==> result0[i] == p[1+i]
+//@   ensures @C15: len(p) >= 1 && 1 + p[0] <= len(p) ==> result1 == nil
+//@   assigns nothing
+
+//@ func AddResponseFormat(p []byte) ([]byte, error)
+//@   ensures @C15: result1 == nil ==> len(result0) == 2 + len(p) && result0[0] * 256 + result0[1] == len(p)
+//@   ensures @C15: result1 == nil ==> forall i int :: 0 <= i && i < len(p) ==> result0[2+i] == p[i]
+//@   ensures @C15: len(p) > 65535 ==> result1 != nil
+//@   ensures @C15: len(p) <= 65535 ==> result1 == nil
+//@   assigns nothing
+
+//@ func RemoveResponseFormat(p []byte) ([]byte, error)
+//@   ensures @C15: result1 == nil ==> len(p) >= 2 && 2 + p[0] * 256 + p[1] <= len(p) && len(result0) == p[0] * 256 + p[1]
+//@   ensures @C15: result1 == nil ==> forall i int :: 0 <= i && i < len(result0) ==> result0[i] == p[2+i]
+//@   ensures @C15: len(p) >= 2 && 2 + p[0] * 256 + p[1] <= len(p) ==> result1 == nil
+//@   assigns nothing
+
+//@ lemma C15_request_roundtrip(p []byte)
+//@   requires len(p) <= 255
+//@   calls e, e1 := AddRequestFormat(p)
+//@   calls d, d1 := RemoveRequestFormat(e)
+//@   ensures @C15: e1 == nil && d1 == nil && len(d) == len(p)
+//@   ensures @C15: forall i int :: 0 <= i && i < len(p) ==> d[i] == p[i]
+
+//@ lemma C15_response_roundtrip(p []byte)
+//@   requires len(p) <= 65535
+//@   calls e, e1 := AddResponseFormat(p)
+//@   calls d, d1 := RemoveResponseFormat(e)
+//@   ensures @C15: e1 == nil && d1 == nil && len(d) == len(p)
+//@   ensures @C15: forall i int :: 0 <= i && i < len(p) ==> d[i] == p[i]
